@@ -1,4 +1,5 @@
 import Operon.Lemmas.C04
+import Operon.Gen.MetabolismConsts
 /-!
 # C04 — energy ledger: no overdraft, exact charging, free failures, bounded total spend
 
@@ -271,6 +272,19 @@ theorem c04_no_raise_run (sys : Sys) (ops : List Op) : ∀ r ∈ (run cls noObs 
   intro r hr e he
   obtain ⟨m, j, n, st, -, h⟩ := c04_raises_only_what_observer_raised_run cls noObs k sys ops r hr e he
   simp [noObs, Obs.silent] at h
+
+/-! ### the classifier's constants (extracted from the source on every run) -/
+
+/-- The metabolic-state classifier of the current source is the one the driver computes: thresholds 0.1 / 0.3 /
+    0.9, debt weight 0.5, and the chain `ratio <= STARVING → starving, <= CONSERVING → conserving, >= FEASTING →
+    feasting, else normal` (`Operon.Gen.Metabolism`, regenerated by extractor E5-metabolism).  No ledger theorem
+    depends on these (they hold for every classifier); this pins the float side of the correspondence by name. -/
+theorem c04_classifier_constants_table :
+    Gen.Metabolism.starving = some (1, 10) ∧ Gen.Metabolism.conserving = some (3, 10) ∧
+    Gen.Metabolism.feasting = some (9, 10) ∧ Gen.Metabolism.debtWeight = some (1, 2) ∧
+    Gen.Metabolism.chain = [("le", "STARVING_THRESHOLD", "starving"), ("le", "CONSERVING_THRESHOLD", "conserving"),
+                            ("ge", "FEASTING_THRESHOLD", "feasting")] ∧
+    Gen.Metabolism.elseState = "normal" := by decide
 
 /-! ### Non-vacuity: concrete stores and histories meeting the hypotheses -/
 
